@@ -20,6 +20,8 @@ Obj(k, l, v, srid) == [k |-> k, l |-> l, v |-> v, srid |-> srid, spare |-> FALSE
 EmptyVal(k) == <<>>
 St0(k, l0) == LET l == IF k = "GC" THEN "No" ELSE l0 IN
              [o |-> <<Obj(k, l, EmptyVal(k), 0), Obj(k, l, EmptyVal(k), 0)>>, err |-> "none"]
+\* the two objects may be created with DIFFERENT layouts (what Swap has to exchange completely)
+St0x(k, l1, l2) == [o |-> <<Obj(k, l1, EmptyVal(k), 0), Obj(k, l2, EmptyVal(k), 0)>>, err |-> "none"]
 
 IsMulti(k) == k \in {"PG", "MPT", "MLS", "MPG", "GC"}
 
@@ -77,6 +79,8 @@ Apply(st, a) ==
     [] a.op = "srid"    -> [st EXCEPT !.o[a.to].srid = a.srid, !.err = "none"]
     [] a.op = "reserve" -> [st EXCEPT !.o[a.to].spare = TRUE, !.err = "none"]     \* capacity only
     [] a.op = "setcoords" -> [st EXCEPT !.o[a.to].v = a.v, !.o[a.to].spare = FALSE, !.err = "none"]
+    [] a.op = "newflat" ->                                   \* obj := New<Kind>Flat(layout, Deflate(v)...): a NEW object (SRID 0)
+         [st EXCEPT !.o[a.to] = Obj(st.o[a.to].k, st.o[a.to].l, a.v, 0), !.err = "none"]
     [] a.op = "setbad" -> [st EXCEPT !.err = "stride"]       \* refused; the receiver's content afterwards is not prescribed (last step only)
     [] a.op = "setlayout" ->                                                   \* GC only
          LET o == st.o[a.to] IN
